@@ -184,7 +184,16 @@ EnumsWide == {WideEnum(FALSE), WideEnum(TRUE)}
 \* transient fields inside tuple and struct variants (every non-empty subset of the positions of two-field shapes)
 EnumsFieldTransient == {EnumT(<<VariantT(VName(67), "unit", <<>>, <<>>, FALSE), VariantOf(X, sh)>>, FALSE) :
                           X \in {Y \in DeclsB : Len(Y.fields) = 2}, sh \in {"tuple", "struct"}}
-EnumDecls == EnumsPlain \cup EnumsTransient \cup EnumsEvolved \cup EnumsFromStructs \cup EnumsWide \cup EnumsFieldTransient
+\* a constructor that lost all its fields: a unit constructor WITH a history (its record has a header all the same),
+\* first, between and after other constructors
+UnitHistories == {<<Stp("Removed", Nm(120), <<>>)>>,
+                  <<Stp("Added", Nm(121), <<0, 7>>), Stp("Removed", Nm(121), <<>>)>>,
+                  <<Stp("Removed", Nm(120), <<>>), Stp("Removed", Nm(121), <<>>)>>}
+UnitEvolved(h) == VariantT(VName(65), "unit", <<>>, h, FALSE)
+EnumsUnitHistory ==
+  {EnumT(<<VariantT(VName(67), "unit", <<>>, <<>>, FALSE), UnitEvolved(h)>>, FALSE) : h \in UnitHistories}
+  \cup {EnumT(<<UnitEvolved(h), VariantT(VName(66), "tuple", <<Fld(VariantFieldName(0), U8, "plain", FALSE, <<>>)>>, <<>>, FALSE)>>, srt) : h \in UnitHistories, srt \in BOOLEAN}
+EnumDecls == EnumsPlain \cup EnumsTransient \cup EnumsEvolved \cup EnumsFromStructs \cup EnumsWide \cup EnumsFieldTransient \cup EnumsUnitHistory
 
 AllDecls == StructDecls \cup EnumDecls
 
@@ -285,9 +294,13 @@ ExtensionSafe ==
 \* indices the definition does not know, transient ones
 UnknownIdx == {U32(Len(D.variants)), U32(Len(D.variants) + 1), <<1, 0>>, <<15, P28 - 1>>}
               \cup {U32(x) : x \in {y \in {127, 128, 255, 256, 16384} : y >= Len(D.variants)}}
+\* ... followed by junk, by a complete honest value, and by an honest value without its version byte (so that the
+\* bytes after the unknown index are themselves an index and the record of that constructor): the stored index alone
+\* decides, whatever follows it
+UnknownFollowers == {<<0, 0, 0>>} \cup UNION {{Encode(D, v).b, Tail(Encode(D, v).b)} : v \in Good}
 UnknownCtorErr ==
   D.k = "enum" =>
-    /\ \A u \in UnknownIdx : Decode(D, <<0>> \o VarUW(u) \o <<0, 0, 0>>) = DErr("BadCtor")
+    /\ \A u \in UnknownIdx : \A f \in UnknownFollowers : Decode(D, <<0>> \o VarUW(u) \o f) = DErr("BadCtor")
     /\ \A i \in 1..Len(D.variants) : D.variants[i].tr => Decode(D, <<0>> \o VarU(CtorIndex(D, i)) \o <<0, 0>>) = DErr("TransientCtor")
 
 -----------------------------------------------------------------------------
@@ -305,7 +318,7 @@ XCases ==   \* cross-definition cases in the format of MC_Evo: <<writer type, re
     : E2 \in Extensions(D)}
 RawCases ==  \* <<bytes, expected error class, constructor name or <<>>>>
   IF D.k # "enum" THEN {}
-  ELSE {<<<<0>> \o VarUW(u) \o <<0, 0, 0>>, "BadCtor", <<>>>> : u \in UnknownIdx}
+  ELSE {<<<<0>> \o VarUW(u) \o f, "BadCtor", <<>>>> : u \in UnknownIdx, f \in UnknownFollowers}
        \cup {<<<<0>> \o VarU(CtorIndex(D, i)) \o <<0, 0>>, "TransientCtor", D.variants[i].n>> : i \in {j \in 1..Len(D.variants) : D.variants[j].tr}}
 HasTransient == IF D.k = "struct" THEN \E i \in 1..Len(D.fields) : D.fields[i].tr
                 ELSE \E i \in 1..Len(D.variants) : D.variants[i].tr
